@@ -184,10 +184,15 @@ class DictList(list):
     def union(self, iterable: Iterable[Object]) -> None:
         """Add elements with id's not already in the model."""
         _dict = self._dict
-        append = self.append
+        new = []
+        seen = set()
+        # collect first, so that an iterable that raises or an entry without id
+        # leaves the list unchanged
         for i in iterable:
-            if i.id not in _dict:
-                append(i)
+            if i.id not in _dict and i.id not in seen:
+                seen.add(i.id)
+                new.append(i)
+        self._extend_nocheck(new)
 
     def extend(self, iterable: Iterable[Object]) -> None:
         """Extend list by appending elements from the iterable.
